@@ -2,7 +2,7 @@ use std::io::Read;
 use std::collections::{HashSet, VecDeque};
 
 use crate::spec_util::validate_tag_path;
-use crate::tag_iterator_util::EBMLSize::{Known, Unknown};
+use crate::tag_iterator_util::EBMLSize::Known;
 use crate::tag_iterator_util::{DEFAULT_BUFFER_LEN, EBMLSize, ProcessingTag, AllowableErrors};
 
 use super::tools;
@@ -446,17 +446,8 @@ impl<R: Read, TSpec> TagIterator<R, TSpec>
 
         if let Some(next_read) = self.read_tag_checked() {
             if let Ok(next_tag) = &next_read {
-                while matches!(self.tag_stack.last(), Some(open_tag) if open_tag.size == Unknown) {
-                    let open_tag = self.tag_stack.last().unwrap();
-                    let previous_tag_ended = open_tag.is_ended_by(next_tag.tag.get_id());
-        
-                    if previous_tag_ended {
-                        let t = self.tag_stack.pop().unwrap();
-                        self.emission_queue.push_back(Ok((t.tag, t.tag_start)));
-                    } else {
-                        break;
-                    }
-                }
+                let keep = self.open_len_after_closing(next_tag.tag.get_id());
+                self.emission_queue.extend(self.tag_stack.drain(keep..).map(|t| Ok((t.tag, t.tag_start))).rev());
 
                 if let Some(Master::Start) = next_tag.tag.as_master() {
                     let tag_id = next_tag.tag.get_id();
@@ -540,6 +531,14 @@ impl<R: Read, TSpec> TagIterator<R, TSpec>
         }
 
         TSpec::get_master_tag(tag_id, Master::Full(rolled_children)).unwrap_or_else(|| panic!("Bad specification implementation: Tag id 0x{:x?} type was master, but could not get tag!", tag_id))
+    }
+
+    // Number of open masters that remain once every unknown-size master ended by `tag_id` is closed.
+    // An element that ends an unknown-size master also ends the unknown-size masters nested inside it,
+    // but never reaches past a known-size master (which ends by byte count only).
+    fn open_len_after_closing(&self, tag_id: u64) -> usize {
+        let run_start = self.tag_stack.iter().rposition(|t| t.size.is_known()).map_or(0, |i| i + 1);
+        (run_start..self.tag_stack.len()).find(|&i| self.tag_stack[i].is_ended_by(tag_id)).unwrap_or(self.tag_stack.len())
     }
 
     #[inline(always)]
